@@ -38,6 +38,21 @@ pub mod verif {
         spawn_rtt_handler,
     };
     pub use super::run_root::verif_run as run;
+
+    /// The API router exactly as it is served (routes, layers, middleware), per actor, so that
+    /// the simulator can call it in-process instead of over a socket.
+    pub static API_ROUTERS: std::sync::Mutex<Vec<(klukai_types::actor::ActorId, axum::Router)>> =
+        std::sync::Mutex::new(Vec::new());
+
+    pub fn api_router(actor_id: klukai_types::actor::ActorId) -> Option<axum::Router> {
+        API_ROUTERS
+            .lock()
+            .unwrap()
+            .iter()
+            .rev()
+            .find(|(a, _)| *a == actor_id)
+            .map(|(_, r)| r.clone())
+    }
 }
 
 pub const ANNOUNCE_INTERVAL: Duration = Duration::from_secs(300);
